@@ -468,6 +468,47 @@ class Analysis:
                         "the scratch block holds exactly the limbs that were requested" if r[0] in ("T", "H") else
                         "the allocation is only known to hold what MPZ_REALLOC / the size test asked for"))
 
+    def abs_term(self, e, st):
+        """|e| as a Term when e is  n,  -n,  or  (c ? n : -n)  with n a term that denotes a size"""
+        while isinstance(e, dict) and e.get("k") == "cast":
+            e = e["e"]
+        if isinstance(e, dict) and e.get("k") == "cond":
+            a, b = self.term(e["a"], st), self.term(e["b"], st)
+            if a is not None and b is not None and a == tscale(b, -1):
+                # one arm is the negation of the other: the magnitude is the arm that is written without a minus sign
+                for arm, t in ((e["a"], a), (e["b"], b)):
+                    x = arm
+                    while isinstance(x, dict) and x.get("k") == "cast":
+                        x = x["e"]
+                    if not (isinstance(x, dict) and x.get("k") == "unop" and x["op"] == "-"):
+                        return t
+            return None
+        if isinstance(e, dict) and e.get("k") == "unop" and e["op"] == "-":
+            return self.term(e["e"], st)
+        return self.term(e, st)
+
+    def check_size_store(self, regions, rhs, st, line):
+        """SIZ (w) = n: 'size within allocation' - n limbs must fit what MPZ_REALLOC / the allocation test just established"""
+        if rhs is None or len(regions) != 1:
+            return
+        r = next(iter(regions))
+        if r not in st.alloc or r[0] not in ("P", "L"):
+            return
+        n = self.abs_term(rhs, st)
+        self.stats.bump("sizestore_obligations", line)
+        E, eline = st.alloc[r]
+        d = tconst(tadd(n, E, -1)) if n is not None else None
+        if d is None:
+            self.stats.bump("sizestore_undecided", line)
+        elif d <= 0:
+            self.stats.bump("sizestore_proved", line)
+        elif ("R-EXTENT", self.fn["name"], self.rname(r)) in self.exceptions:
+            self.stats["reviewed_exceptions"] += 1
+        else:
+            self.rep("R-EXTENT", line, "size-exceeds-alloc:%s" % self.rname(r),
+                     "the size stored for %s at line %d is %d limb%s more than the allocation established at line %d: the object claims "
+                     "limbs outside its block" % (self.rname(r), line, d, "" if d == 1 else "s", eline))
+
     # ---- events ---------------------------------------------------------------------------------
     def rep(self, rule, line, sig, what):
         key = (rule, sig, line)
@@ -762,6 +803,7 @@ class Analysis:
                 f = lhs["field"]
                 if f == "_mp_size":
                     self.write(base[1], "size", st, line)
+                    self.check_size_store(base[1], rhs, st, line)
                 elif f == "_mp_alloc":
                     t = self.term(rhs, st) if rhs is not None else None
                     for r in base[1]:
